@@ -126,6 +126,10 @@ class WebSocketDataQueue:
     async def read(self) -> WSMessage:
         if not self._buffer and not self._eof:
             assert not self._waiter
+            if self._protocol._reading_paused:
+                # Nothing is buffered for the application, so reading was not
+                # paused for its sake: the message waited for has to arrive.
+                self._protocol.resume_reading()
             self._waiter = self._loop.create_future()
             try:
                 await self._waiter
@@ -532,9 +536,17 @@ class WebSocketReader:
                     if (
                         self._max_fragments
                         and len(self._payload_fragments) > self._max_fragments
-                        and not self.queue._protocol._reading_paused
                     ):
-                        self.queue._protocol.pause_reading()
+                        # Bound the bookkeeping for a frame that trickles in
+                        self._payload_fragments[:] = [b"".join(self._payload_fragments)]
+                        if (
+                            not self.queue._protocol._reading_paused
+                            and self.queue._waiter is None
+                        ):
+                            # Nobody is waiting for this message yet. (With a
+                            # reader waiting, nothing would ever resume reading:
+                            # the rest of the frame could not arrive.)
+                            self.queue._protocol.pause_reading()
                     break
 
                 payload: bytes | bytearray
